@@ -178,10 +178,12 @@ SetCache(v, c) ==
   /\ stale' = [stale EXCEPT ![v] = FALSE]
   /\ UNCHANGED <<cache, sOwner, mOwner, mContent, ds, dOwner, rc, last>>
 
+\* on a light VM the call is allowed and has no effect (the light classes override setDataset with an empty body)
 SetDataset(v, d) ==
-  /\ vm[v].live /\ ~IsLight(vm[v].kind) /\ vm[v].pend = None /\ ds[d].live
-  /\ vm' = [vm EXCEPT ![v] = BindDataset(vm[v], d)]
-  /\ bnd' = [bnd EXCEPT ![v] = d]
+  /\ vm[v].live /\ vm[v].pend = None /\ ds[d].live
+  /\ IF IsLight(vm[v].kind) THEN UNCHANGED <<vm, bnd>>
+     ELSE /\ vm' = [vm EXCEPT ![v] = BindDataset(vm[v], d)]
+          /\ bnd' = [bnd EXCEPT ![v] = d]
   /\ UNCHANGED <<cache, sOwner, mOwner, mContent, ds, dOwner, stale, rc, last>>
 
 SetV2(v, on) ==
